@@ -150,6 +150,7 @@ func inlineRound(p *Prog, baseline map[string]bool) (map[string][]byte, []string
 				}
 				ctx.collectClosures()
 				ctx.etaExpandArgs()
+				ctx.devirtualize()
 				ctx.inlineExprFuncs()
 				ctx.walkStmts(fd.Body)
 				ctx.finishClosures()
@@ -2735,4 +2736,134 @@ func scalarizeStructLocals(p *Prog, pk *packages.Package, baseline map[string]bo
 		}
 	}
 	return out, done
+}
+
+// devirtualize undoes "replace the type switch by an interface method": a statement `return v.m(a)`, `v.m(a)` or
+// `x = v.m(a)` whose receiver v is a plain identifier of an interface type, where every implementation of m in the
+// program is a function of this package that the reference tree does not have, is wrapped into a type switch over the
+// implementing types that shadows v (`switch v := v.(type) { case *A: return v.m(a) ... default: return v.m(a) }`).
+// In the arms the call is static and the next round inlines it; the default arm keeps the dynamic call (a nil value or
+// a type the program does not have behave as before).
+func (c *inlCtx) devirtualize() {
+	info := c.pk.TypesInfo
+	// the default arm of a type switch that binds a name (written by an earlier round, or by hand) keeps its dynamic call
+	boundDefault := map[*ast.CaseClause]string{}
+	ast.Inspect(c.caller.Body, func(n ast.Node) bool {
+		if ts, ok := n.(*ast.TypeSwitchStmt); ok {
+			if as, isAs := ts.Assign.(*ast.AssignStmt); isAs && len(as.Lhs) == 1 {
+				if id, isId := as.Lhs[0].(*ast.Ident); isId {
+					for _, cl := range ts.Body.List {
+						if cc, isCC := cl.(*ast.CaseClause); isCC && cc.List == nil {
+							boundDefault[cc] = id.Name
+						}
+					}
+				}
+			}
+		}
+		return true
+	})
+	ast.Inspect(c.caller.Body, func(n ast.Node) bool {
+		var list []ast.Stmt
+		skipName := ""
+		switch b := n.(type) {
+		case *ast.BlockStmt:
+			list = b.List
+		case *ast.CaseClause:
+			list = b.Body
+			skipName = boundDefault[b]
+		case *ast.CommClause:
+			list = b.Body
+		}
+		for _, st := range list {
+			var call *ast.CallExpr
+			switch t := st.(type) {
+			case *ast.ExprStmt:
+				call, _ = ast.Unparen(t.X).(*ast.CallExpr)
+			case *ast.ReturnStmt:
+				if len(t.Results) == 1 {
+					call, _ = ast.Unparen(t.Results[0]).(*ast.CallExpr)
+				}
+			case *ast.AssignStmt:
+				if len(t.Rhs) == 1 && t.Tok == token.ASSIGN {
+					call, _ = ast.Unparen(t.Rhs[0]).(*ast.CallExpr)
+				}
+			}
+			if call == nil {
+				continue
+			}
+			sel, isSel := ast.Unparen(call.Fun).(*ast.SelectorExpr)
+			if !isSel {
+				continue
+			}
+			recv, isId := ast.Unparen(sel.X).(*ast.Ident)
+			if !isId || recv.Name == skipName {
+				continue
+			}
+			rv, isV := info.Uses[recv].(*types.Var)
+			if !isV || rv.IsField() {
+				continue
+			}
+			if _, isIface := rv.Type().Underlying().(*types.Interface); !isIface {
+				continue
+			}
+			m, isM := info.Uses[sel.Sel].(*types.Func)
+			if !isM {
+				continue
+			}
+			impls := c.p.Implementations(m)
+			if len(impls) == 0 {
+				continue
+			}
+			ok := true
+			var typeNames []string
+			for _, im := range impls {
+				f := c.p.byObj[im]
+				if f == nil || im.Pkg() != c.pk.Types || c.baseline[f.Key] || f.Decl.Body == nil {
+					ok = false
+					break
+				}
+				r := im.Type().(*types.Signature).Recv()
+				if r == nil {
+					ok = false
+					break
+				}
+				switch rt := r.Type().(type) {
+				case *types.Pointer:
+					if nm, isN := rt.Elem().(*types.Named); isN && nm.TypeArgs().Len() == 0 {
+						typeNames = append(typeNames, "*"+nm.Obj().Name())
+					} else {
+						ok = false
+					}
+				case *types.Named:
+					if rt.TypeArgs().Len() != 0 {
+						ok = false
+					}
+					typeNames = append(typeNames, rt.Obj().Name(), "*"+rt.Obj().Name())
+				default:
+					ok = false
+				}
+			}
+			if !ok {
+				continue
+			}
+			// the receiver must not be mentioned elsewhere in the statement in a way the shadowing changes: it is the
+			// same value in every arm, only its static type differs - any mention stays valid except as an assignment target
+			if as, isAs := st.(*ast.AssignStmt); isAs {
+				if id, isLhsId := ast.Unparen(as.Lhs[0]).(*ast.Ident); isLhsId && info.Uses[id] == types.Object(rv) {
+					continue
+				}
+			}
+			sort.Strings(typeNames)
+			text := c.text(st)
+			var sb strings.Builder
+			sb.WriteString("switch " + recv.Name + " := " + recv.Name + ".(type) {\n")
+			for _, tn := range typeNames {
+				sb.WriteString("case " + tn + ":\n" + text + "\n")
+			}
+			sb.WriteString("default:\n" + text + "\n}")
+			c.edits = append(c.edits, inlineEdit{start: c.tf.Offset(st.Pos()), end: c.tf.Offset(st.End()), text: sb.String()})
+			c.inlined = append(c.inlined, fmt.Sprintf("%s <- %s.%s (type switch over %d implementations)", c.callerKey, rv.Name(), m.Name(), len(impls)))
+		}
+		return true
+	})
 }
